@@ -5,7 +5,7 @@ from .common import hexs, fhex
 from . import trajgen as G
 from .C01 import compare_traj, fixture_blocks, outcome  # noqa: F401
 
-RULE = ("trajectories as in C01 (all degree combinations, durations 1 ms .. 65 s, all scales) with positive durations; "
+RULE = ("trajectories as in C01 (all degree combinations, durations 1 ms .. 65 s, all scales) with positive durations, a class of curved segments that end exactly where they start; "
         "velocity and acceleration queried at interior fractions (1/8,1/4,1/2,3/4, random) of every segment, after the end, "
         "before zero and at +-inf; the lazy derivative cache is exercised by history-mode lines mixing v/a/p queries. "
         "Non-trivial = at least one successful velocity or acceleration answer inside a non-constant segment.")
@@ -22,6 +22,9 @@ def cases(rng, tier):
     nlong = 8 if tier == "thorough" else 2
     for i in range(n + nlong):
         tr = G.rand_traj(rng, nseg=rng.choice([1, 2, 3, 5]), maxdeg=(7 if i % 3 else 3))
+        if i % 7 == 3:
+            tr["start"][3] = tr["start"][3] % 3600          # (the loop closes on the stored yaw: keep it in range)
+            G.close_loops(rng, tr)
         if i >= n:
             # a block longer than 64 KiB, probed in its tail (beyond byte offset 65536)
             st = tr["start"]
